@@ -294,7 +294,19 @@ class RecordingWCS(object):
         return getattr(self._w, name)
 
 
+GRID_VARIANTS = ["none", "right", "smaller", "larger", "header-right", "header-smaller", "rebuilt", "sliced", "header-larger",
+                 "array-shape-smaller"]
+
+
 def make_wcs(d):
+    """The WCS of a footprint case, in the variants a caller can legally hand to WcsSampler next to the DATA array of
+    d["nx"] x d["ny"] pixels (the image the property speaks of): the pixel-to-sky mapping is always the right one for the
+    data; what varies is the grid size the WCS object happens to remember (d["grid"], d["grid_delta"]):
+      none / rebuilt (WCS(w.to_header()))         no size recorded
+      right / header-right / sliced               the size of the data (pixel_shape set by hand; WCS(header with NAXISn);
+                                                  a larger parent WCS sliced down to the data)
+      smaller / header-smaller / array-shape-smaller, larger / header-larger
+                                                  a stale size (e.g. the array was padded and crpix shifted by hand)"""
     import numpy as np
     from astropy.wcs import WCS
     th = d["theta"]
@@ -305,6 +317,36 @@ def make_wcs(d):
     w.wcs.crval = [d["ra"], d["dec"]]
     w.wcs.crpix = [d["crpix"][0], d["crpix"][1]]
     w.wcs.cd = cd
+    grid = d.get("grid", "none")
+    if grid == "none" or "nx" not in d:
+        return w
+    nx, ny = d["nx"], d["ny"]
+    dx, dy = d.get("grid_delta", (0, 0))
+    if grid.endswith("smaller"):
+        size = (max(1, nx - dx), max(1, ny - dy))
+    elif grid.endswith("larger"):
+        size = (nx + dx, ny + dy)
+    else:
+        size = (nx, ny)
+    if grid in ("right", "smaller", "larger"):
+        w.pixel_shape = size
+    elif grid == "array-shape-smaller":
+        w.array_shape = (size[1], size[0])
+    elif grid.startswith("header-"):
+        h = w.to_header()
+        h["NAXIS"] = 2
+        h["NAXIS1"], h["NAXIS2"] = size
+        w = WCS(h)
+    elif grid == "rebuilt":
+        w = WCS(w.to_header())
+    elif grid == "sliced":
+        ox, oy = dx, dy
+        parent = w.deepcopy()
+        parent.wcs.crpix = [d["crpix"][0] + ox, d["crpix"][1] + oy]
+        parent.pixel_shape = (nx + ox + 3, ny + oy + 5)
+        w = parent.slice((slice(oy, oy + ny), slice(ox, ox + nx)))
+    else:
+        raise ValueError(grid)
     return w
 
 
@@ -427,7 +469,7 @@ class Footprint(object):
             return None
         c = np.asarray(snapshot(tile))
         side = float(np.min(np.hypot((c[:, 0] - np.roll(c[:, 0], 1)) * np.cos(c[:, 1]), c[:, 1] - np.roll(c[:, 1], 1))))
-        return {"footprint": {k: self.d[k] for k in ("nx", "ny", "scale", "theta", "parity", "ra", "dec", "crpix", "proj") if k in self.d},
+        return {"footprint": {k: self.d[k] for k in ("nx", "ny", "scale", "theta", "parity", "ra", "dec", "crpix", "proj", "grid", "grid_delta") if k in self.d},
                 "tile": tuple(tile.pos), "rejected_at": first, "finite_pixels": fin, "pixels_well_inside": inside,
                 "tile_side_px": side / self.pix, "box_deg": None if self.box is None else [math.degrees(v) for v in self.box],
                 "true_lat_deg": [math.degrees(self.R[0]), math.degrees(self.R[1])], "search": how}
@@ -937,8 +979,12 @@ def gen_footprint(rng, ident, nx, ny, klass):
         decmax = min(80.0, math.degrees(math.atan(0.02 / pixr)) - span * 0.75)
         decmax = max(decmax, 5.0)
         dec = rng.uniform(-decmax, decmax)
+    grid = GRID_VARIANTS[ident % len(GRID_VARIANTS)]
+    delta = (rng.randint(0, max(1, nx // 3)), rng.randint(0, max(1, ny // 3)))
+    if delta == (0, 0):
+        delta = (1, 1)
     return {"id": ident, "nx": nx, "ny": ny, "scale": scale, "theta": theta, "parity": parity, "ra": ra, "dec": dec,
-            "crpix": crpix, "klass": klass}
+            "crpix": crpix, "klass": klass, "grid": grid, "grid_delta": delta}
 
 
 def gen_footprints(rng, quick):
@@ -1065,7 +1111,7 @@ CONSTANTS
 %s
 CHECK_DEADLOCK FALSE
 """
-IB_INVS = "INVARIANT CoarseSpansImage\nINVARIANT EndsIncluded\nINVARIANT ReachesImageEdge\nINVARIANT Spacing\nINVARIANT WalkOK\nINVARIANT Emit"
+IB_INVS = "INVARIANT CoarseSpansImage\nINVARIANT CoversEveryArrayPixel\nINVARIANT EndsIncluded\nINVARIANT ReachesImageEdge\nINVARIANT Spacing\nINVARIANT WalkOK\nINVARIANT Emit"
 
 
 def ib_module(lengths):
@@ -1194,9 +1240,9 @@ def _run(ctx, pool, scratch, quick, rng):
     lengths = sorted(set([d["nx"] for d in fps] + [d["ny"] for d in fps]))
     boxes = gen_boxes(rng, 400 if quick else 4000)
     wl_cases = [
-        {"nx": 40, "ny": 32, "scale": 1.3, "theta": 0.5, "parity": 1, "ra": 2.0, "dec": 12.0, "crpix": [20.5, 16.5], "depth": 3, "coordsys": "astronomical"},
-        {"nx": 36, "ny": 50, "scale": 0.8, "theta": 2.2, "parity": -1, "ra": 181.0, "dec": -35.0, "crpix": [15.0, 30.0], "depth": 2, "coordsys": "planetary", "route": "builder"},
-        {"nx": 64, "ny": 48, "scale": 0.5, "theta": 4.0, "parity": 1, "ra": 300.0, "dec": 48.0, "crpix": [32.5, 24.5], "depth": 3 if quick else 4, "coordsys": "astronomical"},
+        {"nx": 40, "ny": 32, "scale": 1.3, "theta": 0.5, "parity": 1, "ra": 2.0, "dec": 12.0, "crpix": [20.5, 16.5], "depth": 3, "coordsys": "astronomical", "grid": "smaller", "grid_delta": (14, 11)},
+        {"nx": 36, "ny": 50, "scale": 0.8, "theta": 2.2, "parity": -1, "ra": 181.0, "dec": -35.0, "crpix": [15.0, 30.0], "depth": 2, "coordsys": "planetary", "route": "builder", "grid": "header-larger", "grid_delta": (5, 9)},
+        {"nx": 64, "ny": 48, "scale": 0.5, "theta": 4.0, "parity": 1, "ra": 300.0, "dec": 48.0, "crpix": [32.5, 24.5], "depth": 3 if quick else 4, "coordsys": "astronomical", "grid": "header-smaller", "grid_delta": (20, 0)},
     ]
     if not quick:
         wl_cases += [
@@ -1422,9 +1468,9 @@ def _run(ctx, pool, scratch, quick, rng):
         _violation(ctx, "C07:wcs-filter:false-negative",
                       "WcsSampler.filter() rejects tile %s (first rejection on its path: %s) although %d of its pixel centres sample finite image data "
                       "(%d of them more than %.2f px inside the image); image %dx%d px of %.4f deg at RA %.4f Dec %.4f, box (deg) %s, true latitude range %s; "
-                      "tile side %.1f image px [%s]"
+                      "tile side %.1f image px [%s; grid size recorded by the WCS: %s]"
                       % (v["tile"], v["rejected_at"], v["finite_pixels"], v["pixels_well_inside"], TAU, fpd["nx"], fpd["ny"], fpd["scale"], fpd["ra"], fpd["dec"],
-                         v["box_deg"], v["true_lat_deg"], v["tile_side_px"], v["search"]), v)
+                         v["box_deg"], v["true_lat_deg"], v["tile_side_px"], v["search"], fpd.get("grid", "none")), v)
     ctx.note("footprints", len(fps))
     ctx.note("footprints_sticking_out_of_their_box", "%d (max %.3f px)" % (nexp, maxexp))
     ctx.note("footprint_tiles_sampled_exactly", sum(r["samples"] for r in results))
